@@ -21,12 +21,29 @@ use super::Arc;
 ///
 /// `ArcBorrow` lets us deal with borrows of known-refcounted objects
 /// without needing to worry about where the `Arc<T>` is.
-#[derive(Debug, Eq, PartialEq)]
+#[derive(Debug)]
 #[repr(transparent)]
 pub struct ArcBorrow<'a, T: ?Sized + 'a>(pub(crate) NonNull<T>, pub(crate) PhantomData<&'a T>);
 
 unsafe impl<'a, T: ?Sized + Sync + Send> Send for ArcBorrow<'a, T> {}
 unsafe impl<'a, T: ?Sized + Sync + Send> Sync for ArcBorrow<'a, T> {}
+
+// Like `Arc`, an `ArcBorrow` compares as the value it points to (it used to wrap a `&T`,
+// for which the derived impls did exactly that); pointer identity is `ArcBorrow::ptr_eq`.
+impl<'a, T: ?Sized + PartialEq> PartialEq for ArcBorrow<'a, T> {
+    fn eq(&self, other: &Self) -> bool {
+        core::ptr::addr_eq(self.0.as_ptr(), other.0.as_ptr())
+            || unsafe { *self.0.as_ptr() == *other.0.as_ptr() }
+    }
+
+    #[allow(clippy::partialeq_ne_impl)]
+    fn ne(&self, other: &Self) -> bool {
+        !core::ptr::addr_eq(self.0.as_ptr(), other.0.as_ptr())
+            && unsafe { *self.0.as_ptr() != *other.0.as_ptr() }
+    }
+}
+
+impl<'a, T: ?Sized + Eq> Eq for ArcBorrow<'a, T> {}
 
 impl<'a, T> Copy for ArcBorrow<'a, T> {}
 impl<'a, T> Clone for ArcBorrow<'a, T> {
